@@ -76,6 +76,7 @@ class C13(Prop):
         "a process stop = cancellation of every task of that server at one virtual instant, nothing flushed; the store object (memory) or file (SQLite) is what survives",
         "retry delays and waiter timeouts are 0/absent in this family (timers across restarts are property C14)",
         "the crash point is the return of the k-th append_tick, i.e. after the tick is durable and before its commands run",
+        "the SQLite store's tick-replay page size (module constant _TICK_PAGE_SIZE = 100) is set by the harness to a generated small value in some cases, so that page boundaries fall inside the short histories; the paging code itself is the repository's",
     ]
     budgets = {"quick": 80, "thorough": 600}
     wall = {"quick": 60.0, "thorough": 900.0}
@@ -86,7 +87,7 @@ class C13(Prop):
 
     def strategy(self, tier):
         def mk(p):
-            c = dict(p[0], store=p[1], end_mode=p[2], cancel_at=p[3])
+            c = dict(p[0], store=p[1], end_mode=p[2], cancel_at=p[3], page=p[5])
             if c["end_mode"] == "fail":
                 # one job fails on every attempt: the run ends with a step failure after exhausting the retry budget
                 c["jobs"] = [dict(j) for j in c["jobs"]]
@@ -99,6 +100,9 @@ class C13(Prop):
             st.sampled_from(["stop", "stop", "stop", "fail", "cancel"]),
             st.sampled_from([0.5, 1.5, 2.5, 3.5, 5.5]),
             st.integers(0, 3),
+            # page size of the SQLite store's tick replay (the module constant _TICK_PAGE_SIZE, 100 in the repository): small values
+            # put page boundaries (exact multiples included) inside these 10-70 tick histories
+            st.sampled_from([None, 2, 3, 5, 8]),
         ).map(mk)
 
     # one life-1 run up to an optional crash point; returns info
@@ -123,8 +127,25 @@ class C13(Prop):
 
     def run_case(self, case):
         case = json.loads(json.dumps(case))
-        r = CaseResult()
         store_kind = case.pop("store")
+        page = case.pop("page", None)
+        import sys as _sys
+
+        sqmod = _sys.modules.get("llama_agents.server._store.sqlite.sqlite_workflow_store")
+        page_saved = getattr(sqmod, "_TICK_PAGE_SIZE", None) if sqmod is not None else None
+        if page is not None and store_kind == "sqlite" and page_saved is not None:
+            sqmod._TICK_PAGE_SIZE = page
+            r_page = page
+        else:
+            r_page = None
+        try:
+            return self._run_case(case, store_kind, r_page)
+        finally:
+            if page_saved is not None:
+                sqmod._TICK_PAGE_SIZE = page_saved
+
+    def _run_case(self, case, store_kind, page):
+        r = CaseResult()
         end_mode = case.get("end_mode", "stop")
         expected = srv.expected_result(case, None)
         horizon = 60.0 + 6 * sum(j["d"] * case["attempts"] for j in case["jobs"])
@@ -254,6 +275,10 @@ class C13(Prop):
             elif want_inside == "completed" and srv.canon(res["result"]) != srv.canon(expected):
                 r.v("resumed_run_wrong_result", **attrs)
         r.classes.append("store_" + store_kind)
+        if page is not None:
+            r.classes.append("sqlite_small_tick_pages")
+            if K and K % page == 0:
+                r.classes.append("history_exact_multiple_of_page")
         r.classes.append("end_" + end_mode + "_" + str(ref_status))
         if stats["unpersisted"]:
             r.classes.append("crash_with_unpersisted_work")
